@@ -7,7 +7,7 @@ TARGETS = {
 PROPS = {
     "C02": dict(
         targets=["c02_cycle", "c02_cycle_block"],
-        shard_mult={"quick": 3},
+        shard_mult={"quick": 3, "thorough": 2},
         level="exploration",
         rule="tape-decoded cases: SPD irreducibly diagonally dominant M-matrix (vf::gen_graph 10 families + vf::gen_mmat, contrast <= 100, optional grid anisotropy, "
              "n <= 200 quick) x one hierarchy amg<builtin<double>, runtime coarsening wrapper, runtime relaxation wrapper> (4 coarsenings x 9 relaxations; ncycle 1..2, npre/npost 0..3 with npre + npost >= 1 (V/W(0,nu) and V/W(nu,0) cycles included), "
